@@ -60,14 +60,25 @@ def psAccess (L : Layout) (K : Nat) (which : String) (i j : Nat) : W (Option (Li
 
 /-! ### Resampling::resample -/
 
-/-- `Resampling::resample(cor, res, parents)`: `cor` has `N` particles of layout `I`, `res` has `rN`
-    particles of layout `R`, `parents` has `plen` entries.  The selected index `idx_csw` is data
-    dependent but always `≤ N - 1`; the transcription uses that extreme value. -/
-def resample (I : Layout) (N : Nat) (R : Layout) (rN plen : Nat) : W Unit := do
-  coeff "Resampling::resample: csw(0)" N 0
-  coeff "Resampling::resample: cor_particles.weight(0)" N 0
-  forRange N fun j => do
-    let idx := N - 1
+/-- The scan of the cumulative weights for comb point `u_j`:
+    `while (u_j > csw(idx_csw) && idx_csw < (num_particles - 1)) idx_csw += 1;`
+    `gt idx` stands for the comparison `u_j > csw(idx)`: it depends on the weight VALUES (normalised or not,
+    underflowing, -inf, NaN …) and on the random offset, so it is an arbitrary function here.  `clamped = false`
+    is the scan without the end clamp (e.g. an unclamped `std::lower_bound`).  `csw(idx)` is read before the clamp
+    is tested (left operand of `&&`). -/
+def cswScan (clamped : Bool) (N : Nat) (gt : Nat → Bool) : Nat → Nat → W Nat
+  | 0, idx => pure idx
+  | fuel + 1, idx => do
+    coeff "Resampling::resample: csw(idx_csw)" N idx
+    if gt idx && (!clamped || decide (idx < N - 1)) then cswScan clamped N gt fuel (idx + 1)
+    else pure idx
+
+/-- the loop over the resampled particles `j = N - rem .. N - 1`; `idx_csw` only grows -/
+def resampleLoop (clamped : Bool) (I : Layout) (N : Nat) (R : Layout) (rN plen : Nat) (gt : Nat → Nat → Bool) :
+    Nat → Nat → Nat → W Unit
+  | 0, _, _ => pure ()
+  | rem + 1, j, idx0 => do
+    let idx ← cswScan clamped N (gt j) (N + 1) idx0
     let d ← col "Resampling::resample: res_particles.state(j)" ⟨R.dim, rN⟩ j
     let s ← col "Resampling::resample: cor_particles.state(idx_csw)" ⟨I.dim, N⟩ idx
     assignFixed "Resampling::resample: res_particles.state(j) = cor_particles.state(idx_csw)" d s
@@ -79,6 +90,34 @@ def resample (I : Layout) (N : Nat) (R : Layout) (rN plen : Nat) : W Unit := do
     assignFixed "Resampling::resample: res_particles.covariance(j) = cor_particles.covariance(idx_csw)" d s
     coeff "Resampling::resample: res_particles.weight(j)" rN j
     coeff "Resampling::resample: res_parents(j)" plen j
+    resampleLoop clamped I N R rN plen gt rem (j + 1) idx
+
+/-- `Resampling::resample(cor, res, parents)`: `cor` has `N` particles of layout `I`, `res` has `rN` particles of
+    layout `R`, `parents` has `plen` entries; `gt j idx` = "`u_j > csw(idx)`" is arbitrary (ANY weight vector of the
+    right shape). -/
+def resampleGen (clamped : Bool) (I : Layout) (N : Nat) (R : Layout) (rN plen : Nat) (gt : Nat → Nat → Bool) : W Unit := do
+  coeff "Resampling::resample: csw(0)" N 0
+  coeff "Resampling::resample: cor_particles.weight(0)" N 0
+  forRange (N - 1) fun i' => do                -- for (i = 1; i < N; ++i) csw(i) = csw(i-1) + exp(weight(i))
+    coeff "Resampling::resample: csw(i)" N (i' + 1)
+    coeff "Resampling::resample: csw(i - 1)" N i'
+    coeff "Resampling::resample: cor_particles.weight(i)" N (i' + 1)
+  resampleLoop clamped I N R rN plen gt N 0 0
+
+/-- the shipped code: the scan is clamped to the last particle -/
+def resample (I : Layout) (N : Nat) (R : Layout) (rN plen : Nat) (gt : Nat → Nat → Bool) : W Unit :=
+  resampleGen true I N R rN plen gt
+
+/-- comparison outcomes of some weight profiles (the harness uses the same numbering):
+    0, 1 normalised (uniform: `u_j > csw(idx)` iff `idx < j`); 6 exponentials summing to more than one (never advance);
+    everything else (sum < 1, sum ≪ 1, all -inf, all underflowing): worst case, always advance -/
+def weightOracle (profile : Nat) : Nat → Nat → Bool :=
+  match profile with
+  | 0 => fun j idx => decide (idx < j)
+  | 1 => fun j idx => decide (idx < j)
+  | 6 => fun _ _ => false
+  | 8 => fun _ _ => false          -- NaN: every comparison is false
+  | _ => fun _ _ => true
 
 /-! ### ResamplingWithPrior::resample -/
 
@@ -91,7 +130,7 @@ structure RWPRes where
 
 /-- `ResamplingWithPrior::resample` with `prior_ratio = rnum / rden`, initialiser `InitSurveillanceAreaGrid(nx, ny)`
     (after fixes afe0735, 2c84227, 8ea2579).  `I` has `dn = 0` (particle sets carry no noise block). -/
-def resampleWithPrior (I : Layout) (N rnum rden nx ny plen : Nat) : W RWPRes := do
+def resampleWithPrior (I : Layout) (N rnum rden nx ny plen : Nat) (gt : Nat → Nat → Bool) : W RWPRes := do
   let p := N * rnum / rden                        -- static_cast<int>(std::floor(N * prior_ratio_))
   -- int num_resample_particles = N - num_prior_particles: a negative count is converted to size_t by ParticleSet(...)
   req "ResamplingWithPrior: num_resample_particles >= 0 (ParticleSet(std::size_t(negative), ...))" (.le p N)
@@ -112,7 +151,7 @@ def resampleWithPrior (I : Layout) (N rnum rden nx ny plen : Nat) : W RWPRes := 
       assignFixed "ResamplingWithPrior: tmp_particles.covariance(...) = cor_particles.covariance(i)" d s
       coeff "ResamplingWithPrior: tmp_particles.weight(j - num_prior)" r t
   nonEmpty "ResamplingWithPrior: log_sum_exp(tmp_particles.weight()) -> maxCoeff" (vecS r)
-  resample I r I r parentsRight.r
+  resample I r I r parentsRight.r gt
   -- init_model_->initialize(res_particles_left); the result is ignored
   let _ ← gridInit nx ny p I.dim
   let left := psCtor p I.dl I.dc I.quat
